@@ -374,6 +374,70 @@ def _has_import_cycle(c: Dict[str, Any]) -> bool:
 
 # ---------------------------------------------------------------- plan / work / replay
 
+# ------------------------------------------------------------------ hierarchies whose classes are finalised out of order
+# A class may be post-processed before one of its bases: when it is visited while the base's module is still being analysed (import
+# cycle) or when the base is re-registered by a re-export after the class was visited.  The linearisation must be Python's whatever
+# the order.  Small exhaustive family: hierarchy x project shape x every processing order of the modules.
+ORDER_HIERS = [
+    [[], [0], [0], [1, 2], [3, 1]],            # Root, P(Root), Q(Root), E(P, Q), D(E, P)
+    [[], [0], [0], [1, 2], [1], [3, 4]],       # ..., E(P, Q), C(P), D(E, C)
+    [[], [0], [0], [1, 2], [3, 2]],            # D(E, Q)
+    [[], [0], [0], [0], [1, 2, 3], [4, 1, 3]],  # E(P, Q, R), D(E, P, R)
+]
+
+
+def order_family_cases() -> List[Dict[str, Any]]:
+    return [{'kind': 'orderfam', 'hier': h, 'shape': sh} for h in ORDER_HIERS for sh in ('cycle', 'reexport', 'reexport-alias')]
+
+
+def check_order_family(case: Dict[str, Any]) -> Tuple[List[Tuple[str, str]], int]:
+    from .c07 import build_in_order, orders_for
+    from ..sysutil import files_to_mods
+    hier, shape = case['hier'], case['shape']
+    n = len(hier)
+    members = [{'m': 'doc m in C%d' % i, 'k%d' % i: 'doc k in C%d' % i} if i % 2 == 0 else {'m': None, 'j%d' % i: 'doc j in C%d' % i} for i in range(n)]
+    oracle = py_oracle(hier, members)
+    e_idx = next(i for i, b in enumerate(hier) if len(b) >= 2)   # the first class with several bases is the one reached late
+    late = list(range(e_idx + 1, n))
+
+    def cls_src(i: int) -> str:
+        body = ''.join('    def %s(self):\n        %s\n' % (nm, repr(doc) if doc is not None else 'pass') for nm, doc in members[i].items())
+        return 'class C%d%s:\n%s' % (i, '(' + ', '.join('C%d' % b for b in hier[i]) + ')' if hier[i] else '', body)
+    common = ''.join(cls_src(i) for i in range(e_idx))
+    imp_common = 'from %%s import %s\n' % ', '.join('C%d' % i for i in range(e_idx))
+    if shape == 'cycle':
+        files = {'common.py': common,
+                 'alpha.py': 'import beta\n' + imp_common % 'common' + cls_src(e_idx),
+                 'beta.py': 'from alpha import C%d\n' % e_idx + imp_common % 'common' + ''.join(cls_src(i) for i in late)}
+        names = ['common.C%d' % i for i in range(e_idx)] + ['alpha.C%d' % e_idx] + ['beta.C%d' % i for i in late]
+    else:
+        how = 'from ._impl import C%d\n' % e_idx if shape == 'reexport' else 'from . import _impl\nC%d = _impl.C%d\n' % (e_idx, e_idx)
+        files = {'common.py': common,
+                 'pkg/__init__.py': 'from ._sub import C%d\nfrom ._impl import C%d\n__all__ = [\'C%d\']\n' % (late[-1], e_idx, e_idx),
+                 'pkg/_impl.py': imp_common % 'common' + cls_src(e_idx),
+                 'pkg/_sub.py': how + imp_common % 'common' + ''.join(cls_src(i) for i in late)}
+        names = ['common.C%d' % i for i in range(e_idx)] + ['pkg.C%d' % e_idx] + ['pkg._sub.C%d' % i for i in late]
+    mods = files_to_mods(files)
+    desc0 = 'hierarchy %s as project %s' % (hier, shape)
+    built = 0
+    for od in orders_for(mods, 120):
+        order_names = [(mods[i][1] + '.' if mods[i][1] else '') + mods[i][0] for i in od]
+        s = build_in_order(mods, od)
+        built += 1
+        d = check_system(s, names, {i: ('?', 0) for i in range(n)}, oracle, '%s, modules analysed in the order %s\n%s' % (
+            desc0, order_names, '\n'.join('--- %s\n%s' % kv for kv in sorted(files.items()))), render_rejected=False)
+        # a consumer that imports a re-exported class from its defining module may lose the base (finding F31): not this check's business
+        d = [(sg, m) for sg, m in d if not (shape == 'reexport' and sg in ('mro-differs', 'member-attribution', 'inherited-docstring', 'shown-attribution') and _stale_base(s, names, late))]
+        if d:
+            return d, built
+    return [], built
+
+
+def _stale_base(s: Any, names: Sequence[str], late: Sequence[int]) -> bool:
+    from pydoctor import model
+    return any(isinstance(s.allobjects.get(names[i]), model.Class) and None in s.allobjects[names[i]].baseobjects for i in late)
+
+
 def plan(tier: str, seed: int, scale: float = 1.0) -> List[Any]:
     n = ncpu()
     N = 5
@@ -384,6 +448,7 @@ def plan(tier: str, seed: int, scale: float = 1.0) -> List[Any]:
     rn = int((800 if tier == 'quick' else 20000) * scale)
     for i in range(n):
         items.append({'kind': 'multi', 'n': max(1, rn // n), 'seed': seed * 1000 + i})
+    items.append({'kind': 'orderfam'})
     if tier == 'thorough':
         for i in range(n):
             items.append({'kind': 'enum6', 'n': int(12000 * scale), 'seed': seed * 1000 + 50 + i})
@@ -397,6 +462,16 @@ def _all_hierarchies(n: int):
 
 def work(item: Dict[str, Any]) -> Acc:
     acc = Acc()
+    if item['kind'] == 'orderfam':
+        for c in order_family_cases():
+            d, built = check_order_family(c)
+            acc.case(key=('orderfam', str(c['hier']), c['shape']), nontrivial=True, sample={'out_of_order_finalisation': c, 'systems_built': built}, classes=['finalised-out-of-order', c['shape']])
+            try:
+                judge(ID, acc, c, d)
+            except Violation as v:
+                acc.violations.append(v.as_dict())
+                break
+        return acc
     if item['kind'] == 'enum':
         idx = 0
         for n in range(1, item['N'] + 1):
@@ -444,4 +519,6 @@ def work(item: Dict[str, Any]) -> Acc:
 def replay(case: Dict[str, Any]) -> List[Tuple[str, str]]:
     if case.get('kind') == 'multi':
         return check_multi(case)
+    if case.get('kind') == 'orderfam':
+        return check_order_family(case)[0]
     return check_single(case['hier'], case['members'])
